@@ -116,6 +116,11 @@ def address_corpus(tier, seed, model, cross=True):
             for d in (b"a.bc", b"[1.2.3.4]", "почта.рф".encode()):
                 out.add(l + b"@" + d)
     # every byte value at every position of a few accepted addresses (substitution)
+    # IPv6 literals with an embedded IPv4 tail, with and without the tag (the library tolerates untagged IPv6): a classification of the
+    # literal by "contains a dot" instead of by the parser that accepted it shows in the family flags
+    for inner in (b"::ffff:192.0.2.128", b"1:2:3:4:5:6:192.0.2.1", b"::192.0.2.1", b"1::2:10.1.2.3", b"::ffff:1.2.3.4", b"1:2:3:4:5:6:7:8",
+                  b"1::8", b"fe80::1:2:3:4", b"::ffff:0.100.200.128", b"1:2:3:4:5:6:7:192.0.2.1"):
+        out.update([b"user@[" + inner + b"]", b"user@[IPv6:" + inner + b"]", b"u.v@[ipv6:" + inner + b"]"])
     for base in (b"a@[IPv6:1:2:3:4:5:6:7:8]", b"ab@[1.2.3.4]", '"q.r"@почта.рф'.encode(), b"a.b@example.com"):
         for i in range(len(base)):
             for c in range(1, 256):
